@@ -417,6 +417,10 @@ func (w *World) pickOp() int {
 func (w *World) payload() []byte {
 	w.payloadSeq++
 	p := []byte(fmt.Sprintf("p%d", w.payloadSeq))
+	if !w.PayloadBin && w.R.Choose("pl-structured", 6) == 0 {
+		// what applications store: a small JSON document (to the log it is bytes like any other payload)
+		return []byte(fmt.Sprintf(`{"op":"PUT", "key":"p%d", "value":"<%d>"}`, w.payloadSeq, w.payloadSeq))
+	}
 	if w.PayloadBin {
 		// an empty payload is a legal payload; at most one per world, so no two entries can coincide
 		if !w.emptyUsed && w.R.Choose("pl-empty", 8) == 0 {
@@ -1143,6 +1147,65 @@ func (w *World) ensureForeign() {
 	}
 }
 
+// emptyClockIO: the default codec with a pre-signature step that empties the clock id - the public-API way to
+// a genuinely signed entry of another implementation whose clock carries no id (the stored entry has the
+// empty id, so the default codec verifies it as it stands).
+type emptyClockIO struct{ *cbor.IOCbor }
+
+func (l *emptyClockIO) PreSign(e iface.IPFSLogEntry) (iface.IPFSLogEntry, error) {
+	e = e.Copy()
+	e.SetClock(entry.NewLamportClock([]byte{}, e.GetClock().GetTime()))
+	return e, nil
+}
+
+// foreignHeadScenario (scratch logs, nothing enters the world): a log whose first entry was written by another
+// implementation with an empty clock id. Two writers open it from that entry, each appends, one merges the
+// other: appended entries lie after the entry they name (C04), and the view only grows (C05).
+func (w *World) foreignHeadScenario(a, b *Node) {
+	r := w.R
+	if b == nil || b == a {
+		return
+	}
+	t0 := 2 + r.Choose("foreign-head-time", 60)
+	g, err := entry.CreateEntryWithIO(w.ctx, w.St, Writers()[5].ID, &entry.Entry{LogID: "F", Payload: []byte("genesis"), Next: []cid.Cid{}, Refs: []cid.Cid{},
+		Clock: entry.NewLamportClock(Writers()[5].ID.PublicKey, t0)}, nil, &emptyClockIO{defaultIO()})
+	if err != nil || len(g.GetClock().GetID()) != 0 || g.Verify(a.W.ID.Provider, defaultIO()) != nil {
+		return // (no such entry can be made this way: nothing to check)
+	}
+	r.Probe("log-opened-on-a-foreign-entry-with-empty-clock-id")
+	open := func(wr *Writer) *ipfslog.IPFSLog {
+		l, err := ipfslog.NewFromEntryHash(w.ctx, w.St, wr.ID, g.GetHash(), &ipfslog.LogOptions{ID: "F", SortFn: w.sortFn()}, &ipfslog.FetchOptions{})
+		if err != nil {
+			r.Violate(w.P.Prop+":load-error", "a log cannot be opened from a genuinely signed entry whose clock id is empty: %v", err)
+		}
+		return l
+	}
+	la, lb := open(a.W), open(b.W)
+	for i, l := range []*ipfslog.IPFSLog{la, lb} {
+		e, err := l.Append(w.ctx, []byte(fmt.Sprintf("f%d", i)), nil)
+		if err != nil {
+			r.Violate(w.P.Prop+":append-error", "append on a log opened from a foreign entry failed: %v", err)
+		}
+		if e.GetClock().GetTime() <= t0 {
+			r.Violate("C04:clock-time", "entry appended on a log whose only entry has time %d (and an empty clock id) got time %d", t0, e.GetClock().GetTime())
+		}
+	}
+	before := hashSeq(lb.Values())
+	if _, err := lb.Join(la, -1); err != nil {
+		r.Violate(w.P.Prop+":join-error", "merge of two logs opened from the same foreign entry failed: %v", err)
+	}
+	after := hashSeq(lb.Values())
+	k := 0
+	for _, h := range after {
+		if k < len(before) && before[k] == h {
+			k++
+		}
+	}
+	if k != len(before) && a.W != b.W {
+		r.Violate("C05:values-subsequence", "log opened from a foreign entry: the view %d entries long before a merge is not a subsequence of the view after it", len(before))
+	}
+}
+
 func (w *World) doSpecial() {
 	n := w.pickUp("special-node")
 	kind := w.R.Choose("special-kind", 4)
@@ -1152,6 +1215,10 @@ func (w *World) doSpecial() {
 	}
 	if kind == 3 && (src == nil || src == n) {
 		kind = 2
+	}
+	if (w.P.Check["C05"] || w.P.Check["C04"]) && w.Codec == "cbor" && w.LinkKeyBytes == nil && w.R.Choose("foreign-head", 3) == 0 {
+		w.foreignHeadScenario(n, src)
+		return
 	}
 	before := w.observe(n.Log)
 	var err error
